@@ -19,6 +19,7 @@ import (
 	"github.com/laizy/bigint"
 	"github.com/ontio/ontology-crypto/ec"
 	"github.com/ontio/ontology-crypto/keypair"
+	"github.com/ontio/ontology/account"
 	"github.com/ontio/ontology/common"
 	"github.com/ontio/ontology/common/config"
 	"github.com/ontio/ontology/common/constants"
@@ -27,7 +28,6 @@ import (
 	"github.com/ontio/ontology/core/store/leveldbstore"
 	"github.com/ontio/ontology/core/store/overlaydb"
 	"github.com/ontio/ontology/core/types"
-	"github.com/ontio/ontology/account"
 	"github.com/ontio/ontology/smartcontract"
 	"github.com/ontio/ontology/smartcontract/service/native"
 	"github.com/ontio/ontology/smartcontract/service/native/auth"
@@ -289,6 +289,14 @@ func (w *world) genesis(st *setup) error {
 	}
 	cache.Commit()
 	return nil
+}
+
+func ongBalanceKey(id int) []byte { return ont.GenBalanceKey(ongC, addrOf(id)) }
+
+// units are 10^-9 ONG; the stored value has 18 decimals
+func ongBalanceBytes(units uint64) []byte {
+	raw := new(big.Int).Mul(new(big.Int).SetUint64(units), big.NewInt(1_000_000_000))
+	return balanceBytes(raw)
 }
 
 func (w *world) ontTransfer(from, to int, amount uint64, h, t uint32) error {
